@@ -94,7 +94,7 @@ package node
 //@   ensures @applied_implies_convertible result == nil && Lrel[H] ==> (forall k int :: 0 <= k && k < len(txs) ==> old(convertible(txs, k, currentHeight, rates, averages)))
 //@   ensures @never_negative result == nil ==> balNonNeg(Lbal)
 //@   ensures @rel_frame result == nil || isRejectErr(result) ==> (forall h factom.Bytes32 :: h != H ==> (Lrel[h] <==> old(Lrel)[h]))
-//@   ensures @nil_means_applied result == nil ==> Lrel[H]
+//@   ensures @nil_means_applied{C17} result == nil ==> Lrel[H]
 //@   ensures @nil_unapplied_only_if_unconvertible result == nil && !Lrel[H] ==> (exists k int :: 0 <= k && k < len(txs) && !old(convertible(txs, k, currentHeight, rates, averages)))
 //@   loop 1 invariant @range 0 <= iter && iter <= len(txs)
 //@   loop 1 invariant @admissible forall k int :: 0 <= k && k < iter ==> old(admissible(txs, k, currentHeight, rates)) && old(convertible(txs, k, currentHeight, rates, averages))
